@@ -72,6 +72,8 @@ struct CallResult {
     res: Result<Vec<u8>, String>,
     elapsed: Duration,
     short: bool,
+    /// after a late reply to this (timed-out) call: did a further call on the same requestor succeed?
+    follow: Option<Result<(), String>>,
 }
 
 async fn run_typed<K: Kind>(addr: SocketAddr, certs: &Certs, c: &Case) -> Outcome {
@@ -150,7 +152,7 @@ async fn run_typed<K: Kind>(addr: SocketAddr, certs: &Certs, c: &Case) -> Outcom
                         let _ = rs.send(Frame::Message(MessagePayload { headers: m.headers, message: r })).await;
                         continue;
                     }
-                    if body.starts_with(b"warmup") {
+                    if body.starts_with(b"warmup") || body.starts_with(b"follow") {
                         let _ = rs.send(Frame::Message(MessagePayload { headers: m.headers, message: make_reply(&body) })).await;
                         continue;
                     }
@@ -289,13 +291,26 @@ async fn run_typed<K: Kind>(addr: SocketAddr, certs: &Certs, c: &Case) -> Outcom
                     let t = Instant::now();
                     let res = rq.request(K::item(body.clone())).await;
                     let el = t.elapsed();
+                    let mut follow = None;
                     if plans[i] == Plan::Late && res.is_err() {
                         // only now may the replier answer: event-driven lateness
                         let _ = late_tx.send(body.clone());
                         tokio::time::sleep(Duration::from_millis(40)).await;
+                        // the late reply is on its way to this requestor (nobody waits for it
+                        // any more): the requestor must go on working. Promptly answered calls;
+                        // several attempts, so that a loaded machine cannot fail this
+                        let mut r: Result<(), String> = Err("not tried".into());
+                        for a in 0..6 {
+                            let fb = format!("follow-{i}-{a}").into_bytes();
+                            match rq.request(K::item(fb.clone())).await {
+                                Ok(v) if K::body(&v) == f(&fb) => { r = Ok(()); break; }
+                                Ok(v) => { r = Err(format!("WRONG reply {:?}", String::from_utf8_lossy(&K::body(&v)[..K::body(&v).len().min(60)]))); break; }
+                                Err(e) => r = Err(e.to_string()),
+                            }
+                        }
+                        follow = Some(r);
                     }
-                    if std::env::var_os("VERIF_DEBUG").is_some() { eprintln!("call #{i} s{s}c{cl}k{k} -> {} after {el:?}", match &res { Ok(_) => "Ok".to_string(), Err(e) => e.to_string() }); }
-                    out.push(CallResult { idx: i, body, res: res.map(|v| K::body(&v)).map_err(|e| e.to_string()), elapsed: el, short });
+                    out.push(CallResult { idx: i, body, res: res.map(|v| K::body(&v)).map_err(|e| e.to_string()), elapsed: el, short, follow });
                 }
                 out
             }));
@@ -469,6 +484,13 @@ async fn run_typed<K: Kind>(addr: SocketAddr, certs: &Certs, c: &Case) -> Outcom
     replier.abort();
     let mut lenient_timeouts = 0;
     for r in &results {
+        if let Some(Err(e)) = &r.follow {
+            let name = String::from_utf8_lossy(&r.body[..r.body.len().min(24)]).into_owned();
+            return Outcome::fail(
+                if e.starts_with("WRONG") { "foreign-reply" } else { "requestor-dead-after-late-reply" },
+                format!("call {name} timed out and its reply arrived late; six further, promptly answered calls on the same requestor then all failed (last: {e})"),
+            );
+        }
         let want = f(&r.body);
         let name = String::from_utf8_lossy(&r.body[..r.body.len().min(24)]).into_owned();
         match (&r.res, plans[r.idx]) {
@@ -536,7 +558,7 @@ pub fn strategy() -> BoxedStrategy<Case> {
 }
 
 pub fn run(ctx: &mut Ctx) {
-    ctx.rule = "1-3 requestor streams x 1-4 clones x 1-8 sequential calls per clone (<= 24 calls), all clones running concurrently against a scripted wire-level replier that holds requests and releases them in a generated permuted order, answers some twice, at most one never and at most one only after the caller has reported its timeout; unique request bodies, reply = f(request); in 30% of the cases a raw requestor on the same topic meanwhile sends requests carrying the client streams' ids as a forged origin header and every request id in use (the replier answers those promptly); codec {String, Bytes, Bincode} and generated request/reply compression; oracle: Ok(v) implies v == f(own request); never/late answered calls fail with the timeout error no earlier than the timeout; answered calls on long-timeout streams return Ok; non-trivial = >=2 calls in flight at once and (several calls per stream so replies can come back out of order, or >=2 streams with colliding ids, or a late/never reply followed by another call)".into();
+    ctx.rule = "1-3 requestor streams x 1-4 clones x 1-8 sequential calls per clone (<= 24 calls), all clones running concurrently against a scripted wire-level replier that holds requests and releases them in a generated permuted order, answers some twice, at most one never and at most one only after the caller has reported its timeout (after which the same requestor must complete a promptly answered call); unique request bodies, reply = f(request); in 30% of the cases a raw requestor on the same topic meanwhile sends requests carrying the client streams' ids as a forged origin header and every request id in use (the replier answers those promptly); codec {String, Bytes, Bincode} and generated request/reply compression; oracle: Ok(v) implies v == f(own request); never/late answered calls fail with the timeout error no earlier than the timeout; answered calls on long-timeout streams return Ok; non-trivial = >=2 calls in flight at once and (several calls per stream so replies can come back out of order, or >=2 streams with colliding ids, or a late/never reply followed by another call)".into();
     ctx.assumptions.push("a promptly answered call on a short-timeout (400 ms) stream may legitimately time out under machine load: both Ok(correct) and the timeout error are accepted there".into());
     ctx.assumptions.push("reply delays are scripted as orderings and event-triggered lateness, not as real-time distributions".into());
     let env = match Env::new() {
